@@ -14,6 +14,11 @@ import (
 func init() { register("C16", checkC16) }
 
 func checkC16(c *Ctx) {
+	defer c16SessionID(c)
+	defer sharedSliceImmutable(c, "L-PUBLISHED", "gmtls", "sessionTicketKeys", 4,
+		"the published ticket-key slice is replaced as a whole, never written in place",
+		"clones of the Config (and configs returned by GetConfigForClient) share the slice: refilling it in place on rotation silently changes the keys of the clones, whose own tickets then stop resuming")
+
 	c.Decided = append(c.Decided,
 		"G-C16-ticket: decryptTicket rejects short tickets, unknown key names and any ticket whose HMAC-SHA256 (key of the named ticket key, over key name || IV || ciphertext) differs from the trailing MAC in a constant-time comparison; the AES-CTR decryption and the state parser run only after the MAC matched; tickets are never accepted when disabled",
 		"K-C16-layout: encryptTicket and decryptTicket agree on the ticket layout (offsets of key name, IV, ciphertext, MAC; MAC over everything before it); every call site hands decryptTicket a private copy because it decrypts in place",
@@ -226,6 +231,49 @@ func c16State(c *Ctx) {
 		}
 	}
 	c.Check(okEnd, rule, fname(uf), "trailing bytes make the state invalid", "", "unmarshal does not end with `return len(data) == 0`", uf.Pos())
+	// ... and on nothing else: the MAC has already authenticated the ticket, so unmarshal must accept every state
+	// marshal can produce — no test on the VALUE of a decoded field (a range check on vers refuses every GMSSL
+	// ticket, 0x0101 lying below SSL 3.0)
+	badCond := ""
+	for _, cs := range ci.conds {
+		for _, fld := range []string{"vers", "cipherSuite"} {
+			if strings.Contains(cs, pnameOfRecv(uf)+"."+fld) || strings.Contains(cs, "field:"+fld+"(") {
+				badCond = cs
+			}
+		}
+	}
+	c.Check(badCond == "", rule, fname(uf), "unmarshal decides on lengths only", "", "unmarshal rejects by the value of a decoded field ("+badCond+"): states that marshal produces — e.g. a GMSSL session, version 0x0101 — are refused and their tickets never resume", uf.Pos())
+}
+
+// c16SessionID: with tickets, a ServerHello that echoes the client's session ID means "resumed". Only the resumption
+// flight may therefore fill serverHelloMsg.sessionId; a full handshake that echoes it makes a client whose ticket was
+// declined believe it was accepted, and the handshake breaks instead of falling back.
+func c16SessionID(c *Ctx) {
+	rule := "K-C16-restore"
+	n := 0
+	for f := range c.P.AllFns {
+		if !inRepo(f) || f.Pkg == nil || f.Pkg.Pkg.Name() != "gmtls" || f.Blocks == nil || strings.HasSuffix(c.P.relFile(f.Pos()), "_test.go") {
+			continue
+		}
+		instrsOf(f, func(_ *ssa.BasicBlock, in ssa.Instruction) {
+			st, ok := in.(*ssa.Store)
+			if !ok {
+				return
+			}
+			fa, ok := st.Addr.(*ssa.FieldAddr)
+			if !ok || fieldName(fa.X.Type(), fa.Field) != "sessionId" || !strings.HasSuffix(fa.X.Type().String(), "serverHelloMsg") {
+				return
+			}
+			if f.Name() == "unmarshal" || isNilConst(st.Val) {
+				return
+			}
+			n++
+			c.Check(strings.Contains(f.Name(), "doResumeHandshake"), rule, fname(f), "the ServerHello carries a session ID only when resuming", "", "a function other than the resumption flight sets ServerHello.sessionId: with session tickets an echoed session ID tells the client that its ticket was accepted, so a full handshake that echoes it is taken for a resumption and aborts", st.Pos())
+		})
+	}
+	if n == 0 {
+		c.Undecided(rule, "gmtls", "stores to ServerHello.sessionId", "none found", token.NoPos)
+	}
 }
 
 func c16Gate(c *Ctx) {
@@ -729,4 +777,11 @@ func c16SharedKeys(c *Ctx) {
 		}
 	})
 	c.Check(shared && own, rule, fname(f), "a per-client Config shares the listening Config's ticket keys; only a stand-alone Config derives its own", "", "serverInit does not assign originalConfig.sessionTicketKeys on the path where an original Config is given (or derives a private key set there): per-client Configs ignore SetSessionTicketKeys rotations of the listener", f.Pos())
+}
+
+func pnameOfRecv(f *ssa.Function) string {
+	if len(f.Params) == 0 {
+		return "?"
+	}
+	return pname(f.Params[0])
 }
